@@ -13,7 +13,10 @@ from props.sqlparse import tokenize, ParseError
 from props.c01 import subst_tags
 
 ENG = None
-FUNC_CANON = {'IFNULL': 'COALESCE', 'RAND': 'RANDOM', 'CHAR_LENGTH': 'LENGTH'}
+# the documented substitutions, per dialect: only a dialect's own spelling is mapped to the common name - the spelling of another dialect stays and shows up as a difference
+FUNC_CANON = {'mysql': {'IFNULL': 'COALESCE', 'RAND': 'RANDOM', 'CHAR_LENGTH': 'LENGTH'},
+              'postgres': {'CHAR_LENGTH': 'LENGTH'},
+              'sqlite': {'IFNULL': 'COALESCE'}}
 PORTABLE = {
     'select': [['distinct', 'valitem', 'case', 'from', 'arity', 'vrows', 'cte', 'funcs'], ['from', 'join', 'w1', 'w2', 'insub', 'group', 'having'], ['w1', 'union', 'utype', 'order', 'ordnulls', 'ordfunc', 'limit', 'offset'], ['window', 'frame', 'order', 'limit']],
     'insert': [['rows', 'cols', 'select']], 'update': [['set2', 'where']], 'delete': [['where', 'where2']], 'with': [['cte2', 'nested', 'recursive', 'kind', 'limit']],
@@ -25,7 +28,7 @@ def norm_tokens(sql, backend):
     for i, t in enumerate(toks):
         if t[0] == 'ph': out.append(('ph',)); continue
         if t[0] == 'word':
-            w = FUNC_CANON.get(t[1], t[1])
+            w = FUNC_CANON[backend].get(t[1], t[1])
             if w == 'ROW' and i + 1 < len(toks) and toks[i+1] == ('sym', '(') and backend == 'mysql': continue     # VALUES ROW(..)
             if backend == 'sqlite' and w in ('MAX', 'MIN') and i + 1 < len(toks) and toks[i+1] == ('sym', '('):
                 d = 0; comma = False
@@ -35,7 +38,7 @@ def norm_tokens(sql, backend):
                         d -= 1
                         if d == 0: break
                     elif u == ('sym', ',') and d == 1: comma = True
-                if comma: w = 'GREATEST' if w == 'MAX' else 'LEAST'
+                if comma: w = 'GREATEST' if w == 'MAX' else 'LEAST'      # SQLite's multi-argument MAX / MIN are the scalar GREATEST / LEAST
             out.append(('word', w)); continue
         out.append(t)
     out = unparen_setops(out)
